@@ -47,6 +47,9 @@
     }
     if (t === 'function') return '[Function]';
     // object
+    // the global object is not shown by content: which of its properties exist, and in which order, depends on the
+    // embedding (V8's vm contexts create the sandbox property of a `var` when it is first assigned)
+    if (v === global) return '[global]';
     for (let i = 0; i < stack.length; i++) if (stack[i] === v) return '<cycle>';
     if (depth > 4) return '<deep>';
     const ec = errClass(v);
